@@ -501,6 +501,9 @@ int bstr_util_mem_index_of_mem(const void *_data1, size_t len1, const void *_dat
     // If we ever want to optimize this function, the following link
     // might be useful: http://en.wikipedia.org/wiki/Knuth-Morris-Pratt_algorithm
 
+    // The empty string is found at the start of anything, the empty string included.
+    if (len2 == 0) return 0;
+
     for (i = 0; i < len1; i++) {
         size_t k = i;
 
@@ -523,6 +526,9 @@ int bstr_util_mem_index_of_mem_nocase(const void *_data1, size_t len1, const voi
 
     // If we ever want to optimize this function, the following link
     // might be useful: http://en.wikipedia.org/wiki/Knuth-Morris-Pratt_algorithm
+
+    // The empty string is found at the start of anything, the empty string included.
+    if (len2 == 0) return 0;
 
     for (i = 0; i < len1; i++) {
         size_t k = i;
